@@ -237,6 +237,22 @@ def run_toy_points(case):
             res.violation("C03/toy-points/rmul", vc("rmul", s), got, ref, "scalar * S256Point wrong")
         else:
             res.bulk("rmul==ref", 1, 1)
+    if P is not None and not only:
+        # k*P was just computed for every k; now k*(-P) and (-P) + P in the same process (state shared between a
+        # point and its negation would show here)
+        nP = c.neg(P)
+        onP = mk(nP)
+        for s in list(range(-3, 4)) + [n - 1, n + 1]:
+            got = un(attempt(lambda: s * onP))
+            ref = c.mul_affine(s % n, nP)
+            if got != ref:
+                res.violation("C03/toy-points/rmul-of-negated-point-after-point", vc("rmul-neg", s), got, ref, "s * (-P) wrong after s * P was computed in the same process")
+            else:
+                res.bulk("rmul(-P)==ref", 1, 1)
+        if un(attempt(lambda: oP + onP)) is not None:
+            res.violation("C03/toy-points/P+(-P)", vc("add-neg", 0), "not infinity", None, "P + (-P) is not infinity")
+        else:
+            res.bulk("P+(-P)==inf", 1, 1)
     if P is not None and (not only or only[0] == "enc"):
         for comp in (True, False):
             sec = attempt(oP.sec, comp)
@@ -410,6 +426,21 @@ def run_real_mul(case):
             res.violation("C03/real-mul/a(bG)", vc, got, ref, "a(bG) != (ab)G")
         else:
             res.ok("a(bG)==(ab)G", nontrivial=("mulmul", case["a"], case["b"]))
+        # a(-B) right after a(B) in the same process, -(-B) and B + (-B)
+        nB = c.neg(B)
+        got = un(attempt(lambda: a * mk(nB)))
+        ref = c.mulg((-a * b) % N)
+        if got != ref:
+            res.violation("C03/real-mul/a(-B)-after-a(B)", vc, got, ref, "a * (-B) wrong after a * B was computed in the same process")
+        else:
+            res.ok("a(-B)==ref", nontrivial=("mulneg", case["a"], case["b"]))
+        got = un(attempt(lambda: -1 * (-1 * mk(B))))
+        if got != B:
+            res.violation("C03/real-mul/double-negation", vc, got, B, "-1 * (-1 * B) != B")
+        elif un(attempt(lambda: mk(B) + (-1 * mk(B)))) is not None:
+            res.violation("C03/real-mul/B+(-B)", vc, "not infinity", None, "B + (-1 * B) is not infinity")
+        else:
+            res.ok("negation identities")
         # P + int
         got = un(attempt(lambda: mk(B) + a))
         ref = c.add(B, c.mulg(a % N))
@@ -434,6 +465,9 @@ def gen_real_enc(tier, seed):
     for pf in (0, 1, 2, 3, 5, 6, 7):
         rej.append(("prefix65", bytes([pf]) + ec.b32(c.g[0]) + ec.b32(c.g[1])))
     rej += [
+        ("x=0-02", b"\x02" + ec.b32(0)),
+        ("x=0-03", b"\x03" + ec.b32(0)),
+        ("x=0-04-y=0", b"\x04" + ec.b32(0) + ec.b32(0)),
         ("x-nosqrt-02", b"\x02" + ec.b32(x_bad)),
         ("x-nosqrt-03", b"\x03" + ec.b32(x_bad)),
         ("x>=p-02", b"\x02" + ec.b32(PP)),
